@@ -70,7 +70,7 @@ def rhs_of(value, local_names):
             and isinstance(value.left, ast.Name) and isinstance(value.right, ast.Constant)
             and type(value.right.value) is int):
         if not is_local(value.left.id, local_names):
-            raise Unmodelled("arithmetic on a global")
+            return ("lit", "glob:" + value.left.id)
         return ("copy", value.left.id)
     if (isinstance(value, ast.Call) and isinstance(value.func, ast.Name)
             and value.func.id in KNOWN_FUNCS and all(isinstance(a, ast.Constant) for a in value.args)):
